@@ -98,6 +98,10 @@ func runC05(c *Ctx) {
 		var w c05Witness
 		json.Unmarshal(c.Replay.Case, &w)
 		// schedule dependent: re-run the same history (same seed => same scripts) several times
+		if w.Params.Profile == "" { // a mid-frame stall witness
+			c05Stall(c)
+			return
+		}
 		if w.Params.Profile == "exhaustion" {
 			c05Exhaust(c, w.Params.Framing)
 			return
@@ -114,6 +118,7 @@ func runC05(c *Ctx) {
 	exhaustDone.Add(1)
 	go func() {
 		defer exhaustDone.Done()
+		c05Stall(c)
 		c05Exhaust(c, "tcp")
 		if c.Tier == "thorough" {
 			c05Exhaust(c, "udp")
